@@ -8,38 +8,47 @@ Core Lean only.
 -/
 namespace Tabula.PdfDoc
 
-/-- the inheritable page attributes; `none` = key absent in that dictionary -/
-structure Attrs where
+/-- the inheritable page attributes; `none` = key absent in that dictionary. `R` is what a
+`/Resources` entry is represented by: a variant number in the page-tree op (`Attrs`), the
+parsed object in the end-to-end reader model (`Model/Reader.lean`). -/
+structure AttrsOf (R : Type) where
   mb : Option (Int × Int × Int × Int) := none
-  res : Option Nat := none
+  res : Option R := none
   rot : Option Int := none
   deriving Repr, DecidableEq
 
+abbrev Attrs := AttrsOf Nat
+
 /-- the child's own value wins, otherwise the inherited one -/
-def Attrs.over (child parent : Attrs) : Attrs :=
+def AttrsOf.over {R : Type} (child parent : AttrsOf R) : AttrsOf R :=
   { mb := child.mb.or parent.mb, res := child.res.or parent.res, rot := child.rot.or parent.rot }
 
-inductive PTree
-  | leaf (a : Attrs)
-  | node (a : Attrs) (kids : List PTree)
+inductive PTreeOf (R : Type)
+  | leaf (a : AttrsOf R)
+  | node (a : AttrsOf R) (kids : List (PTreeOf R))
   deriving Repr
+
+abbrev PTree := PTreeOf Nat
+
+section
+variable {R : Type}
 
 mutual
 /-- `traversePageNode`: the effective attributes of every `/Page` leaf, left to right;
 `inh` is what the ancestors hand down -/
-def flatten : PTree → Attrs → List Attrs
+def flatten : PTreeOf R → AttrsOf R → List (AttrsOf R)
   | .leaf a, inh => [a.over inh]
   | .node a kids, inh => flattenList kids (a.over inh)
-def flattenList : List PTree → Attrs → List Attrs
+def flattenList : List (PTreeOf R) → AttrsOf R → List (AttrsOf R)
   | [], _ => []
   | t :: ts, inh => flatten t inh ++ flattenList ts inh
 end
 
 mutual
-def countLeaves : PTree → Nat
+def countLeaves : PTreeOf R → Nat
   | .leaf _ => 1
   | .node _ kids => countLeavesList kids
-def countLeavesList : List PTree → Nat
+def countLeavesList : List (PTreeOf R) → Nat
   | [] => 0
   | t :: ts => countLeaves t + countLeavesList ts
 end
@@ -47,18 +56,20 @@ end
 mutual
 /-- specification view: for each leaf, left to right, the attribute dictionaries on the path
 from the root down to and including the leaf -/
-def leafPaths : PTree → List (List Attrs)
+def leafPaths : PTreeOf R → List (List (AttrsOf R))
   | .leaf a => [[a]]
   | .node a kids => (leafPathsList kids).map (a :: ·)
-def leafPathsList : List PTree → List (List Attrs)
+def leafPathsList : List (PTreeOf R) → List (List (AttrsOf R))
   | [] => []
   | t :: ts => leafPaths t ++ leafPathsList ts
 end
 
 /-- nearest definer along a root-to-leaf path, key by key: later (deeper) entries win -/
-def resolvePath (inh : Attrs) : List Attrs → Attrs
+def resolvePath (inh : AttrsOf R) : List (AttrsOf R) → AttrsOf R
   | [] => inh
   | a :: rest => resolvePath (a.over inh) rest
+
+end
 
 /-- PDF white-space bytes -/
 def isWs (c : Nat) : Bool := c = 0 || c = 9 || c = 10 || c = 12 || c = 13 || c = 32
